@@ -4,3 +4,4 @@ pub mod search;
 pub mod surface;
 pub mod terms;
 pub mod tree;
+pub mod scale;
